@@ -385,7 +385,21 @@ MapMutProg(style, mut, at) ==
        PV(2, ListE(<<Id("m"), Id("n")>>)), ES(I(0))>>
 MapMuts(u) == {MapMutProg(style, mut, at) : style \in {"range2", "range1"},
                  mut \in {"addlow", "addhigh", "write", "delseen", "dellast"}, at \in {1, 2}}
-IterMuts(u) == MapMuts(u) \cup {IterMutProg(style, mut, at) : style \in {"range2", "range1", "in"},
+\* a loop over an integer count: n > 0 runs 0 .. n-1, n < 0 runs 0, -1 .. n+1 (the KEY still counts up), 0 never runs
+CountLoop(style, n) ==
+  LET vars == CASE style = "range2" -> <<"i", "v">> [] style = "range1" -> <<"i">> [] OTHER -> <<"v">>
+      obs == ListE([k \in 1..Len(vars) |-> Id(vars[k])])
+  IN <<VarS("n", I(n)),
+       [k |-> "range", style |-> (IF style = "in" THEN "in" ELSE "range"), vars |-> vars, c |-> Id("n"), body |-> <<PV(1, obs)>>],
+       P(2), ES(I(0))>>
+\* a container that is made a member of itself is a value like any other as long as it is not printed, compared or
+\* hashed: the program's value is compared down to Lang!Proj's depth
+SelfProgs(u) == {<<VarS("l", ListE(<<I(1)>>)), MethodS("l", "append", AppendCps, <<Id("l")>>), PV(1, CallE(Id("len"), <<Id("l")>>)), ES(Id("l"))>>,
+                 <<VarS("l", ListE(<<I(1), I(2)>>)), SetIdxS(Id("l"), I(0), "=", Id("l")), PV(1, CallE(Id("len"), <<Id("l")>>)),
+                   ES([k |-> "idx", a |-> Id("l"), b |-> I(0)])>>,
+                 <<VarS("m", MapE(<<StrK(98)>>, <<I(1)>>)), SetIdxS(Id("m"), StrK(99), "=", Id("m")), PV(1, CallE(Id("len"), <<Id("m")>>)), ES(Id("m"))>>}
+CountLoops(u) == {CountLoop(style, n) : style \in {"range2", "range1", "in"}, n \in {-3, -1, 0, 2}}
+IterMuts(u) == MapMuts(u) \cup CountLoops(u) \cup SelfProgs(u) \cup {IterMutProg(style, mut, at) : style \in {"range2", "range1", "in"},
                   mut \in {"append", "pop", "extend", "reverse", "setlast", "rebind"}, at \in {1, 2, 4}}
 
 \* several deferred calls in one function: a function literal called in place, a named script function, a builtin, in
